@@ -36,6 +36,8 @@ DAY_US = 86_400_000_000
 # ---------------------------------------------------------------------------------------------
 _PTS = np.array([[0.0, 0.0], [1.0, 0.0], [0.0, 1.0], [1.0, 1.0], [2.0, 0.5]])
 _CELLS = np.array([[0, 1, 2], [1, 3, 2], [1, 4, 3]])
+_PTS6 = np.array([[0.0, 0.0], [3.0, 0.0], [3.0, 3.0], [0.0, 3.0], [1.0, 1.0], [2.0, 2.0]])
+_CELLS6 = np.array([[0, 1, 4], [1, 5, 4], [1, 2, 5], [2, 3, 5], [3, 4, 5], [3, 0, 4]])
 GRIDS = [
     ("nogrid", fm.NoGrid()),
     ("u34", fm.UniformGrid((3, 4))),
@@ -44,6 +46,10 @@ GRIDS = [
     ("u45", fm.UniformGrid((4, 5))),
     ("u34_pts", fm.UniformGrid((3, 4), data_location=fm.Location.POINTS)),
     ("unst", fm.UnstructuredGrid(_PTS, _CELLS, [fm.CellType.TRI] * 3)),
+    # one mesh with as many cells as nodes (6/6), once with cell data and once with node data: equal data *shapes*,
+    # different data *locations*
+    ("unst6", fm.UnstructuredGrid(_PTS6, _CELLS6, [fm.CellType.TRI] * 6)),
+    ("unst6_pts", fm.UnstructuredGrid(_PTS6, _CELLS6, [fm.CellType.TRI] * 6, data_location=fm.Location.POINTS)),
 ]
 GRID_NAMES = [n for n, _ in GRIDS]
 _A = np.zeros((2, 3), dtype=bool)
@@ -174,7 +180,7 @@ def gen_info(rng, producer, adapter, partner=None):
     friendly = partner is not None and rng.random() < 0.8
     if friendly:
         pg = partner["grid"]
-        grid = rng.choice([pg, pg, None] + ([rng.choice(U34)] if pg in U34 else []))
+        grid = rng.choice([pg, pg, None] + ([rng.choice(U34)] if pg in U34 else []) + ([7, 8] if pg in (7, 8) else []))
         if pg is None:
             grid = rng.choices([0, 1, 2, 3, 4, 6], [10, 40, 15, 10, 10, 5])[0]
         pu = partner["units"]
@@ -201,7 +207,7 @@ def gen_info(rng, producer, adapter, partner=None):
         elif r < 0.45:
             mask = rng.choice(fits)
     else:
-        grid = rng.choices([None, 0, 1, 2, 3, 4, 5, 6], [22, 10, 28, 12, 8, 8, 4, 6])[0]
+        grid = rng.choices([None, 0, 1, 2, 3, 4, 5, 6, 7, 8], [22, 10, 28, 12, 8, 8, 4, 6, 5, 5])[0]
         units = rng.choices([None, 0, 1, 2, 3, 4, 5], [22, 30, 15, 8, 8, 8, 9])[0]
         fits = _fits(grid)
         mask = rng.choice(fits) if rng.random() < 0.45 else "flex"
